@@ -64,6 +64,13 @@ def first_diff(a, b):
     return min(len(a), len(b)) if len(a) != len(b) else None
 
 
+def sub_multiset(a, b):
+    """is the sorted list `a` a sub-multiset of the sorted list `b`?"""
+    from collections import Counter
+    ca, cb = Counter(a), Counter(b)
+    return all(cb[k] >= n for k, n in ca.items())
+
+
 class Conversations(Suite):
     name = "conversations"
     parallel = True
@@ -196,13 +203,14 @@ class Conversations(Suite):
                 i = first_diff(o["transcript"], want)
                 got = o["transcript"][i] if i is not None and i < len(o["transcript"]) else None
                 exp = want[i] if i is not None and i < len(want) else None
-                if exp is None:
-                    cls = "extra-message"
-                elif got is None:
-                    cls = "missing-message"
-                elif canon(sorted(map(canon, o["transcript"]))) == canon(sorted(map(canon, want))):
+                gs, ws = sorted(map(canon, o["transcript"])), sorted(map(canon, want))
+                if gs == ws:
                     cls = "order"
-                elif canon(got["id"]) != canon(exp["id"]):
+                elif sub_multiset(ws, gs):
+                    cls = "extra-message"
+                elif sub_multiset(gs, ws):
+                    cls = "missing-message"
+                elif got is not None and exp is not None and canon(got["id"] if "id" in got else None) != canon(exp["id"]):
                     cls = "id"
                 else:
                     cls = "payload"
@@ -220,19 +228,33 @@ class Conversations(Suite):
         return None
 
     # ------------------------------------------------------------------ bookkeeping
+    harness_errors = 0
+
     def kind(self, case, obs):
         present = [c for c in PAIR_ORDER if obs.get(c) is not None]
+        if any(obs[c].get("harness_error") for c in present):
+            self.harness_errors += 1
+            return "harness-error"
         o = obs[present[0]]
         outs = "+".join(sorted({x["outcome"] for x in o["outcomes"]}))
         n = sum(len(x.get("notifs", [])) for x in case["xs"])
         return f"{len(present)}carriers/x{len(case['xs'])}/n{min(n, 3)}/{outs}"
 
     def nontrivial(self, case, obs):
-        return len(case["xs"]) > 0
+        return len(case["xs"]) > 0 and not any(o and o.get("harness_error") for o in obs.values())
 
     def shrink_candidates(self, case):
         return G.shrink_candidates(case)
 
 
+_SUITE = Conversations()
+
+
 def suites():
-    return [Conversations()]
+    return [_SUITE]
+
+
+def extra(ctx, tier):
+    """a harness that could not run a case yields no verdict for it: never pass silently"""
+    if _SUITE.harness_errors:
+        raise RuntimeError(f"C15 harness failed on {_SUITE.harness_errors} case(s): no verdict for them")
